@@ -1576,7 +1576,12 @@ def natural_sort_key(s: str) -> list[str | int]:
     >>> sorted(a, key=natural_sort_key)
     ['f0', 'f1', 'f2', 'f8', 'f9', 'f10', 'f11', 'f19', 'f20', 'f21']
     """
-    return [int(part) if part.isdigit() else part for part in re.split(r"(\d+)", s)]
+    # re.split with one capture group alternates text, digits, text, ...: the
+    # odd positions are exactly the ``\d+`` matches.  (``str.isdigit`` is also true
+    # for characters such as superscripts that ``int`` cannot convert.)
+    return [
+        int(part) if i % 2 else part for i, part in enumerate(re.split(r"(\d+)", s))
+    ]
 
 
 def parse_bytes(s: float | str) -> int:
